@@ -106,10 +106,11 @@ Definition hl_append (s : hlist) (node : option Z) (data : Z) (alloc_ok : bool) 
     ({| hh := h; hnextid := nw + 1; hpool := p'; hsize := hsize s + 1 |}, Some nw)
   end.
 
-(* muggle_linked_list_free_data with the callback supplied: data given to it *)
-Definition h_free_data (h : dheap) (node : Z) : dheap * list Z :=
+(* muggle_linked_list_free_data / muggle_queue_free_data: a non-NULL datum is handed to the callback when one
+   is supplied ([cb]); the data pointer is cleared in both cases *)
+Definition h_free_data (h : dheap) (node : Z) (cb : bool) : dheap * list Z :=
   let d := hdata h node in
-  if d =? 0 then (h, []) else (set_data h node 0, [d]).         (* node->data = NULL *)
+  if d =? 0 then (h, []) else (set_data h node 0, if cb then [d] else []).    (* node->data = NULL *)
 
 (* the unlinking part of muggle_linked_list_free_node / muggle_queue_free_node *)
 Definition h_unlink (h : dheap) (node : Z) : dheap :=
@@ -117,31 +118,31 @@ Definition h_unlink (h : dheap) (node : Z) : dheap :=
   set_prev h (hnext h node) (hprev h node).                     (* node->next->prev = node->prev *)
 
 (* muggle_linked_list_remove: the next node (None = NULL) and the data freed *)
-Definition hl_remove (s : hlist) (node : Z) : hlist * option Z * list Z :=
+Definition hl_remove (s : hlist) (node : Z) (cb : bool) : hlist * option Z * list Z :=
   let next_node := hl_next s node in
-  let (h1, f) := h_free_data (hh s) node in
+  let (h1, f) := h_free_data (hh s) node cb in
   let h2 := h_unlink h1 node in
   ({| hh := h2; hnextid := hnextid s; hpool := hpool s; hsize := hsize s - 1 |}, next_node, f).
 
 (* while (node != &tail) { next = node->next; free_data; free_node; node = next; }
    fuel = number of iterations allowed; returns the node the loop stopped at *)
-Fixpoint h_clear_loop (fuel : nat) (h : dheap) (node : Z) : dheap * list Z * Z :=
+Fixpoint h_clear_loop (fuel : nat) (cb : bool) (h : dheap) (node : Z) : dheap * list Z * Z :=
   match fuel with
   | O => (h, [], node)
   | S f =>
     if node =? TAIL then (h, [], node)
     else
       let nx := hnext h node in
-      let (h1, fr) := h_free_data h node in
+      let (h1, fr) := h_free_data h node cb in
       let h2 := h_unlink h1 node in
-      let '(h3, fr', stop) := h_clear_loop f h2 nx in
+      let '(h3, fr', stop) := h_clear_loop f cb h2 nx in
       (h3, fr ++ fr', stop)
   end.
 
 (* muggle_linked_list_clear / muggle_queue_clear; None = the loop did not
    terminate within [size] iterations (proved impossible) *)
-Definition hl_clear (s : hlist) : option (hlist * list Z) :=
-  let '(h, fr, stop) := h_clear_loop (Z.to_nat (hsize s)) (hh s) (hnext (hh s) HEAD) in
+Definition hl_clear (s : hlist) (cb : bool) : option (hlist * list Z) :=
+  let '(h, fr, stop) := h_clear_loop (Z.to_nat (hsize s)) cb (hh s) (hnext (hh s) HEAD) in
   if stop =? TAIL
   then Some ({| hh := h; hnextid := hnextid s; hpool := hpool s; hsize := 0 |}, fr)
   else None.
@@ -187,11 +188,11 @@ Definition hq_enqueue (s : hlist) (data : Z) (alloc_ok : bool) : hlist * option 
   end.
 
 (* muggle_queue_dequeue *)
-Definition hq_dequeue (s : hlist) : hlist * list Z :=
+Definition hq_dequeue (s : hlist) (cb : bool) : hlist * list Z :=
   if hl_is_empty s then (s, [])
   else
     let node := hnext (hh s) HEAD in
-    let (h1, f) := h_free_data (hh s) node in
+    let (h1, f) := h_free_data (hh s) node cb in
     let h2 := h_unlink h1 node in
     ({| hh := h2; hnextid := hnextid s; hpool := hpool s; hsize := hsize s - 1 |}, f).
 
@@ -279,12 +280,12 @@ Definition hl_pstep (s : hlist) (o : ll_op) : option (hlist * (bool * list Z)) :
     | None => None
     | Some node => let (s', r) := hl_append s node d ok in Some (s', (is_some r, []))
     end
-  | LRem k =>
+  | LRem k cb =>
     match hl_at s k with
     | None => None
-    | Some n => let '(s', _, f) := hl_remove s n in Some (s', (true, f))
+    | Some n => let '(s', _, f) := hl_remove s n cb in Some (s', (true, f))
     end
-  | LClear => match hl_clear s with Some (s', f) => Some (s', (true, f)) | None => None end
+  | LClear cb => match hl_clear s cb with Some (s', f) => Some (s', (true, f)) | None => None end
   end.
 
 Fixpoint hl_prun (s : hlist) (ops : list ll_op) : option (hlist * list (bool * list Z)) :=
@@ -300,8 +301,8 @@ Fixpoint hl_prun (s : hlist) (ops : list ll_op) : option (hlist * list (bool * l
 Definition hq_step (s : hlist) (o : qu_op) : option (hlist * (bool * list Z)) :=
   match o with
   | QEnq d ok => let (s', r) := hq_enqueue s d ok in Some (s', (is_some r, []))
-  | QDeq => let (s', f) := hq_dequeue s in Some (s', (true, f))
-  | QClear => match hq_clear s with Some (s', f) => Some (s', (true, f)) | None => None end
+  | QDeq cb => let (s', f) := hq_dequeue s cb in Some (s', (true, f))
+  | QClear cb => match hq_clear s cb with Some (s', f) => Some (s', (true, f)) | None => None end
   end.
 
 Fixpoint hq_run (s : hlist) (ops : list qu_op) : option (hlist * list (bool * list Z)) :=
